@@ -518,10 +518,11 @@ def r23(ctx, R):
     sel = [n for n in own_nodes(tc.node) if isinstance(n, ast.If)]
     fmt_gate = None
     if len(sel) == 1:
-        gt = G.gate_of(tc, sel[0].test)
-        body_calls = [c for s in sel[0].body for c in ast.walk(s)
+        t_, body_, else_ = C.pos_if(sel[0])
+        gt = G.gate_of(tc, t_)
+        body_calls = [c for s in body_ for c in ast.walk(s)
                       if isinstance(c, ast.Call)]
-        else_calls = [c for s in sel[0].orelse for c in ast.walk(s)
+        else_calls = [c for s in else_ for c in ast.walk(s)
                       if isinstance(c, ast.Call)]
         if gt is not None and any(td.qbase in C.call_name(ctx, tc, c)
                                   for c in body_calls) and any(
